@@ -25,8 +25,9 @@ RULE = ('Hypothesis draws 2-5 stems and builds one lexicon (optionally a second,
         'unrelated strings, and a drawn subset of {every rule run backwards on every stored '
         'string, every stored string + every suffix, stored string minus last letter}; each '
         'string is asked with pos in {None,n,v,a,s,r,x} of Morphy(wordnet), Morphy() and '
-        'wn.morphy.morphy, and of Wordnet.words/senses/synsets with either lemmatizer, with a '
-        'drawn normalizer in {default,None} and search_all_forms in {True,False}.  One '
+        'wn.morphy.morphy, and (pos None plus, alternating by query index, n/a/r or v/s/x) of '
+        'Wordnet.words/senses/synsets with either lemmatizer, with a drawn normalizer in '
+        '{default,None} and search_all_forms in {True,False}; one database per case.  One '
         'enumerated case per shard plants all 24 rules under the right pos.  Non-trivial: some '
         'query makes a rule yield a stored lemma of its pos or hits the exception map; distinct '
         'by (lexicon, queries, configuration).  Tags hit:<rule> count cases in which the rule '
